@@ -227,11 +227,83 @@ def generate(repo=REPO):
         # what follows the inner loop in the source: recorded so that a change there is visible in the report
         after = [ast.unparse(s)[:80] for s in body[k1 + 1:k1 + 2]]
         report["_shapley_montecarlo.walk"] = dict(ok=True, stored_by=after, **getattr(f, "try_info", {}))
+        try:
+            parts.append(outer_template(fn, outer[0], k0, k1))
+            report["_shapley_montecarlo.outer"] = dict(ok=True)
+        except Untranslatable as e:
+            report["_shapley_montecarlo.outer"] = dict(ok=False, why=str(e))
     except Untranslatable as e:
         report["_shapley_montecarlo.walk"] = dict(ok=False, why=str(e))
     except SyntaxError as e:
         report["_shapley_montecarlo.walk"] = dict(ok=False, why="syntax: %s" % e)
     return HEADER + "\n".join(parts) + "\nend GenM\n", report
+
+
+OUTER_PRE = ["n_units_total = provenance.num_units", "n_units = len(units)", "all_importances = np.zeros((n_units, iterations))",
+             "all_truncations = np.ones(iterations, dtype=int) * n_units", "start_time = time.time()"]
+OUTER_POST = ["scores = np.average(all_importances, axis=1)", "truncations = np.average(all_truncations)"]
+OUTER_LEAN = """/-- translated from `ShapleyImportance._shapley_montecarlo`: the loop over iterations around the walk (`walk idxs all_truncations i` stands for the
+per-iteration resets and the inner loop, i.e. `mc_walk`; it returns `importance` and `all_truncations`); `perms` are the successive results of
+`self.randomstate.permutation(n_units)`, `clock` the successive readings of `time.time()`; the matrix `all_importances` is kept column-wise (`Np.M`) -/
+def mc_outer (walk : (List Int) → (List Int) → Int → Except String ((List α) × (List Int))) (perms : List (List Int)) (clock : List α)
+    (n_units : Int) (iterations : Int) (timeout : Int) : Except String (List α) := do
+  let all_importances : (Np.M α) := (Np.zerosM n_units iterations)
+  let all_truncations : (List Int) := (List.map (fun x_ => x_ * n_units) (Np.rep (1 : Int) iterations))
+  let start_time : α := (Np.headF clock)
+  let clock : (List α) := clock.tail
+  let st_ : ((Np.M α) × (List Int) × (List (List Int)) × (List α)) ← Np.forBreakM (Np.range (0 : Int) iterations (1 : Int)) (all_importances, all_truncations, perms, clock) (fun (st_ : ((Np.M α) × (List Int) × (List (List Int)) × (List α))) (i : Int) => do
+      let all_importances : (Np.M α) := st_.1
+      let all_truncations : (List Int) := st_.2.1
+      let perms : (List (List Int)) := st_.2.2.1
+      let clock : (List α) := st_.2.2.2
+      let idxs : (List Int) := (Np.headL perms)
+      let perms : (List (List Int)) := perms.tail
+      let w_ ← walk idxs all_truncations i
+      let importance : (List α) := w_.1
+      let all_truncations : (List Int) := w_.2
+      let all_importances : (Np.M α) := Np.setColM all_importances i importance
+      let tnow_ : α := (Np.headF clock)
+      let clock : (List α) := clock.tail
+      let elapsed_time : α := (tnow_ - start_time)
+      if ((decide (timeout > (0 : Int))) && (decide (elapsed_time > (Np.ofInt timeout)))) then
+        let all_importances : (Np.M α) := (Np.sliceColsM all_importances (i + (1 : Int)))
+        pure ((all_importances, all_truncations, perms, clock), true)
+      else
+        pure ((all_importances, all_truncations, perms, clock), false)
+  )
+  let all_importances : (Np.M α) := st_.1
+  let scores : (List α) := (Np.averageAxis1M all_importances)
+  pure scores
+"""
+
+
+def outer_template(fn, outer, k0, k1):
+    """the statements of `_shapley_montecarlo` around the walk must be EXACTLY the known skeleton; then the fixed Lean text above is their translation"""
+    top = fn.body
+    pos = top.index(outer)
+    pre = [ast.unparse(s) for s in top[pos - len(OUTER_PRE):pos]]
+    if pre != OUTER_PRE:
+        raise Untranslatable("statements before the loop: %r" % pre)
+    if ast.unparse(outer.target) != "i" or ast.unparse(outer.iter) != "range(iterations)" or outer.orelse:
+        raise Untranslatable("outer loop header")
+    body = outer.body
+    if k0 != 0 or ast.unparse(body[0]) != "idxs = self.randomstate.permutation(n_units)":
+        raise Untranslatable("the permutation is not drawn first in the loop body")
+    tail = body[k1 + 1:]
+    want = ["all_importances[:, i] = importance", "elapsed_time = time.time() - start_time"]
+    if [ast.unparse(s) for s in tail[:2]] != want or len(tail) != 3:
+        raise Untranslatable("statements after the inner loop: %r" % [ast.unparse(s)[:60] for s in tail])
+    t = tail[2]
+    if not (isinstance(t, ast.If) and not t.orelse and ast.unparse(t.test) == "timeout > 0 and elapsed_time > timeout"
+            and [ast.unparse(x) for x in t.body] == ["all_importances = all_importances[:, :i + 1]", "break"]):
+        raise Untranslatable("timeout branch: %s" % ast.unparse(t)[:120])
+    post = [ast.unparse(s) for s in top[pos + 1:pos + 1 + len(OUTER_POST)]]
+    if post != OUTER_POST:
+        raise Untranslatable("statements after the loop: %r" % post)
+    rest = top[pos + 1 + len(OUTER_POST):]
+    if not (len(rest) == 2 and isinstance(rest[0], ast.Expr) and "logger.debug" in ast.unparse(rest[0]) and ast.unparse(rest[1]) == "return scores"):
+        raise Untranslatable("tail of the function: %r" % [ast.unparse(s)[:60] for s in rest])
+    return OUTER_LEAN
 
 
 def _stmt_return(self, s, ind):
